@@ -473,3 +473,183 @@ Theorem C14_file_example :
   end.
 Proof. exact ex_file_accept. Qed.
 Print Assumptions C14_file_example.
+
+(* ====================================================================== the oracle hypotheses discharged (round 3) *)
+From NV Require Import Gen.IsPreproc Model.GuardTurn Proofs.GuardMatch.
+
+(* ---- round 3: IsPreprocessorStatement's matcher translated (Gen/IsPreproc.v); turn_g = turn with it ---- *)
+Theorem C14_turn_refines :
+  forall (order : list str) (toks : list Lexer.token) (r : Engine.tryres),
+  EngineTok.turn order toks = Some r -> turn_g order toks = Some r.
+Proof. exact turn_refines. Qed.
+Print Assumptions C14_turn_refines.
+
+Theorem C14_induced_g_induced :
+  forall (oracle : nat -> Engine.tryres) (toks : list Lexer.token),
+  induced_g oracle toks -> EngineTok.induced oracle toks.
+Proof. exact induced_g_induced. Qed.
+Print Assumptions C14_induced_g_induced.
+
+Theorem C14_turn_g_pre :
+  forall (toks : list Lexer.token) (j : Z),
+  ispreproc_run toks = Some (true, j) ->
+  turn_g RegistryOrder.primaries_order toks = Some (Engine.Matched PRE j).
+Proof. exact turn_g_pre. Qed.
+Print Assumptions C14_turn_g_pre.
+
+(* the translated matcher on the three guard lines, whatever follows them *)
+Theorem C14_match_ifndef :
+  forall (l1 : list Lexer.token) (x : str) (rest : list Lexer.token),
+  map tv l1 = ifndef_line x -> ispreproc_run (l1 ++ rest) = Some (true, 5).
+Proof. exact match_ifndef. Qed.
+Print Assumptions C14_match_ifndef.
+
+Theorem C14_match_define :
+  forall (l2 : list Lexer.token) (x : str) (rest : list Lexer.token),
+  map tv l2 = define_line x -> ispreproc_run (l2 ++ rest) = Some (true, 6).
+Proof. exact match_define. Qed.
+Print Assumptions C14_match_define.
+
+Theorem C14_match_endif :
+  forall l3 rest : list Lexer.token,
+  map tv l3 = endif_line -> ispreproc_run (l3 ++ rest) = Some (true, 3).
+Proof. exact match_endif. Qed.
+Print Assumptions C14_match_endif.
+
+(* file level without O1 / O2 / the closing-turn hypothesis: all derived from induced_g.  Left: induced_g itself
+   (the oracle agrees with the TRANSLATED primaries where they decide), the body simulation, the position of the `#endif` line *)
+Theorem C14_file_shape_header_g :
+  forall (uw ud : N -> bool) (f : Header.fields) (x y R : str) (itemsR : list Lexer.item)
+  (xR : Lexer.st) (items' : list Lexer.item) (xf' : Lexer.st) (oracle : nat -> Engine.tryres)
+  (body : list stmt) (after : list Lexer.token),
+  HeaderLex.fields_lex_ok f = true ->
+  ident_ok x ->
+  ident_ok y ->
+  Lexer.lex uw ud R = Ok (itemsR, xR) ->
+  Lexer.lex uw ud (Header.lines_text (Header.template f) ++ ifndef_text x ++ define_text y ++ R) =
+  Ok (items', xf') ->
+  induced_g oracle (Lexer.tokens_of items') ->
+  rest_shape_g oracle (Lexer.tokens_of items') 13 body after ->
+  guarded_shape oracle (Lexer.tokens_of items') comments11 body x y after.
+Proof. exact file_shape_header_g. Qed.
+Print Assumptions C14_file_shape_header_g.
+
+Theorem C14_file_accept_induced_partial :
+  forall (uw ud : N -> bool) (base : str),
+  file_type base = s ".h" ->
+  forall f : Header.fields,
+  HeaderLex.fields_lex_ok f = true ->
+  forall (R : str) (itemsR : list Lexer.item) (xR : Lexer.st),
+  Lexer.lex uw ud R = Ok (itemsR, xR) ->
+  forall (oracle : nat -> Engine.tryres) (body : list stmt) (items' : list Lexer.item) (xf' : Lexer.st),
+  ident_ok (guard_of base) ->
+  Lexer.lex uw ud
+  (Header.lines_text (Header.template f) ++
+  ifndef_text (guard_of base) ++ define_text (guard_of base) ++ R) = Ok (items', xf') ->
+  induced_g oracle (Lexer.tokens_of items') ->
+  rest_shape_g oracle (Lexer.tokens_of items') 13 body [] ->
+  balanced body -> tok_emitted base oracle (Lexer.tokens_of items') (turns comments11 body) = [].
+Proof. exact file_accept_induced_partial. Qed.
+Print Assumptions C14_file_accept_induced_partial.
+
+Theorem C14_file_G1_induced_partial :
+  forall (uw ud : N -> bool) (base : str),
+  file_type base = s ".h" ->
+  forall f : Header.fields,
+  HeaderLex.fields_lex_ok f = true ->
+  forall (R : str) (itemsR : list Lexer.item) (xR : Lexer.st),
+  Lexer.lex uw ud R = Ok (itemsR, xR) ->
+  forall (oracle : nat -> Engine.tryres) (body : list stmt) (x y : str) (items' : list Lexer.item)
+  (xf' : Lexer.st),
+  ident_ok x ->
+  ident_ok y ->
+  x <> guard_of base ->
+  py_upper x <> guard_of base ->
+  Lexer.lex uw ud (Header.lines_text (Header.template f) ++ ifndef_text x ++ define_text y ++ R) =
+  Ok (items', xf') ->
+  induced_g oracle (Lexer.tokens_of items') ->
+  rest_shape_g oracle (Lexer.tokens_of items') 13 body [] ->
+  In (s "HEADER_PROT_NAME") (tok_emitted base oracle (Lexer.tokens_of items') (turns comments11 body)).
+Proof. exact file_G1_induced_partial. Qed.
+Print Assumptions C14_file_G1_induced_partial.
+
+Theorem C14_file_G2_induced_partial :
+  forall (uw ud : N -> bool) (base : str),
+  file_type base = s ".h" ->
+  forall f : Header.fields,
+  HeaderLex.fields_lex_ok f = true ->
+  forall (R : str) (itemsR : list Lexer.item) (xR : Lexer.st),
+  Lexer.lex uw ud R = Ok (itemsR, xR) ->
+  forall (oracle : nat -> Engine.tryres) (body : list stmt) (x y : str) (items' : list Lexer.item)
+  (xf' : Lexer.st),
+  ident_ok x ->
+  ident_ok y ->
+  x <> guard_of base ->
+  py_upper x = guard_of base ->
+  Lexer.lex uw ud (Header.lines_text (Header.template f) ++ ifndef_text x ++ define_text y ++ R) =
+  Ok (items', xf') ->
+  induced_g oracle (Lexer.tokens_of items') ->
+  rest_shape_g oracle (Lexer.tokens_of items') 13 body [] ->
+  In (s "HEADER_PROT_UPPER") (tok_emitted base oracle (Lexer.tokens_of items') (turns comments11 body)).
+Proof. exact file_G2_induced_partial. Qed.
+Print Assumptions C14_file_G2_induced_partial.
+
+Theorem C14_file_G3_induced_partial :
+  forall (uw ud : N -> bool) (base : str),
+  file_type base = s ".h" ->
+  forall f : Header.fields,
+  HeaderLex.fields_lex_ok f = true ->
+  forall (R : str) (itemsR : list Lexer.item) (xR : Lexer.st),
+  Lexer.lex uw ud R = Ok (itemsR, xR) ->
+  forall (oracle : nat -> Engine.tryres) (body : list stmt) (x y : str) (items' : list Lexer.item)
+  (xf' : Lexer.st),
+  ident_ok x ->
+  ident_ok y ->
+  y <> guard_of base ->
+  balanced body ->
+  defines (guard_of base) body = false ->
+  Lexer.lex uw ud (Header.lines_text (Header.template f) ++ ifndef_text x ++ define_text y ++ R) =
+  Ok (items', xf') ->
+  induced_g oracle (Lexer.tokens_of items') ->
+  rest_shape_g oracle (Lexer.tokens_of items') 13 body [] ->
+  In (s "HEADER_PROT_NODEF") (tok_emitted base oracle (Lexer.tokens_of items') (turns comments11 body)).
+Proof. exact file_G3_induced_partial. Qed.
+Print Assumptions C14_file_G3_induced_partial.
+
+Theorem C14_file_G6_induced_partial :
+  forall (uw ud : N -> bool) (base : str),
+  file_type base = s ".h" ->
+  forall f : Header.fields,
+  HeaderLex.fields_lex_ok f = true ->
+  forall (R : str) (itemsR : list Lexer.item) (xR : Lexer.st),
+  Lexer.lex uw ud R = Ok (itemsR, xR) ->
+  forall (oracle : nat -> Engine.tryres) (body : list stmt) (x y : str) (t : Lexer.token)
+  (more : list Lexer.token) (items' : list Lexer.item) (xf' : Lexer.st),
+  ident_ok x ->
+  ident_ok y ->
+  is_trivia_ty (Lexer.t_type t) = false ->
+  balanced body ->
+  Lexer.lex uw ud (Header.lines_text (Header.template f) ++ ifndef_text x ++ define_text y ++ R) =
+  Ok (items', xf') ->
+  induced_g oracle (Lexer.tokens_of items') ->
+  rest_shape_g oracle (Lexer.tokens_of items') 13 body (t :: more) ->
+  In (s "HEADER_PROT_ALL_AF") (tok_emitted base oracle (Lexer.tokens_of items') (turns comments11 body)).
+Proof. exact file_G6_induced_partial. Qed.
+Print Assumptions C14_file_G6_induced_partial.
+
+Theorem C14_matcher_tie : corresponding_endif_fingerprint = "5269749532a226d76a85"%string
+  /\ ispreproc_dispatched = [s "ifndef"; s "define"; s "endif"].
+Proof. exact corresponding_endif_pinned. Qed.
+Print Assumptions C14_matcher_tie.
+
+(* non-vacuity: on the three-line header every turn is decided by turn_g, with the jumps 5 / 6 / 3 *)
+Theorem C14_turns_example :
+  match Lexer.lex nouni_ nouni_ ex_text with
+  | Ok (items, _) =>
+      map (fun k => turn_g RegistryOrder.primaries_order (EngineTok.remaining ex_oracle (Lexer.tokens_of items) k)) [0%nat; 1%nat; 2%nat]
+      = [Some (Engine.Matched PRE 5); Some (Engine.Matched PRE 6); Some (Engine.Matched PRE 3)]
+      /\ EngineTok.remaining ex_oracle (Lexer.tokens_of items) 3 = []
+  | _ => False
+  end.
+Proof. exact ex_turns_decided. Qed.
+Print Assumptions C14_turns_example.
